@@ -152,6 +152,61 @@ def run(tier, seed, replay):
                 disagreements.append((c, {"impl": got, "model": want}))
             nontrivial.add(common.case_hash({k: v for k, v in c.items() if not k.startswith("_")}))
         shutil.rmtree(d, ignore_errors=True)
+    # --- real failures and stale siblings: FILE.bk / FILE.tmp already there as a non-empty directory (the rename / the
+    # write then really fails), or as a stale file longer / shorter than the new text; odd file names
+    pre_states = ["bk_dir", "tmp_dir", "stale_tmp_long", "stale_tmp_short", "stale_bk", "plain"]
+    names = ["a.rs", "noext", "m.d.rs", "b.tmp", "c.bk"]
+    n_pre = 0
+    for nm in names:
+        for ps in pre_states:
+            d = os.path.join(base, "pre_%s_%s" % (nm.replace(".", "_"), ps))
+            os.makedirs(d)
+            t = SRC[0]
+            f = os.path.join(d, nm)
+            open(f, "w", newline="", encoding="utf-8").write(t)
+            stem = nm.rsplit(".", 1)[0] if "." in nm else nm
+            ext = nm.rsplit(".", 1)[1] if "." in nm else ""
+            # the sibling names the protocol is documented to use; for FILE.tmp / FILE.bk they would be the file itself, so
+            # any other pair of names is accepted there (judged through the invariant only)
+            tmp_p, bk_p = os.path.join(d, stem + ".tmp"), os.path.join(d, stem + ".bk")
+            collide = ext in ("tmp", "bk")
+            if not collide:
+                if ps == "bk_dir":
+                    os.makedirs(os.path.join(bk_p, "x"))
+                elif ps == "tmp_dir":
+                    os.makedirs(os.path.join(tmp_p, "x"))
+                elif ps == "stale_tmp_long":
+                    open(tmp_p, "w").write("// stale\n" * 40)
+                elif ps == "stale_tmp_short":
+                    open(tmp_p, "w").write("x")
+                elif ps == "stale_bk":
+                    open(bk_p, "w").write("// old backup\n")
+            elif ps != "plain":
+                shutil.rmtree(d, ignore_errors=True)
+                continue
+            n_pre += 1
+            rc, o, e = rustfmt(["--backup", nm], d)
+            listing = {}
+            for x in sorted(os.listdir(d)):
+                px = os.path.join(d, x)
+                listing[x] = open(px, newline="", encoding="utf-8").read() if os.path.isfile(px) else "<dir>"
+            case = {"name": nm, "pre_state": ps, "rc": rc, "stderr": e[-300:], "after": listing}
+            cur = listing.get(nm)
+            holders = [x for x, v in listing.items() if v == t]
+            if not holders:
+                if rep.violation("original_lost", {"case": case}, "rustfmt --backup %s with pre-state %s (exit %d): the original text is in no file of the directory any more" % (nm, ps, rc)):
+                    found += 1
+            if cur is not None and cur not in (t, fmt_of[t]):
+                if rep.violation("partial_file", {"case": case}, "rustfmt --backup %s with pre-state %s: the file holds neither the original nor the formatted text" % (nm, ps)):
+                    found += 1
+            if rc == 0 and (cur != fmt_of[t] or (not collide and listing.get(stem + ".bk") != t)):
+                if rep.violation("success_post", {"case": case}, "rustfmt --backup %s with pre-state %s exits 0 but the file / its .bk are not formatted / original" % (nm, ps)):
+                    found += 1
+            if ps in ("bk_dir", "tmp_dir") and rc != 1:
+                if rep.violation("fault_exit", {"case": case}, "rustfmt --backup %s: the %s cannot succeed, exit status %d, expected 1" % (nm, "rename to .bk" if ps == "bk_dir" else "write of .tmp", rc)):
+                    found += 1
+            shutil.rmtree(d, ignore_errors=True)
+    rep.coverage["pre_state_runs"] = n_pre
     # --- order of the real system calls (strace) against the model's operation list
     strace_ok = None
     d = os.path.join(base, "strace")
@@ -202,7 +257,7 @@ def run(tier, seed, replay):
         "evaluations": len(cases),
         "distinct_nontrivial": len(nontrivial),
         "exhaustive": True,
-        "rule": "every crash point (4) x {abort, injected I/O error} x every position of the rewritten file in a 3-file run, plus the uninterrupted run, for %d sets of source files; real `rustfmt --backup` processes; directory contents compared with the model state; non-trivial = a file is actually being rewritten when the fault hits" % nsets,
+        "rule": "every crash point (4) x {abort, injected I/O error} x every position of the rewritten file in a 3-file run, plus the uninterrupted run, for %d sets of source files; real `rustfmt --backup` processes; directory contents compared with the model state; plus runs where FILE.bk / FILE.tmp already exist as a non-empty directory (real failure of the rename / write) or as stale files, and file names without extension, with two dots, ending in .tmp / .bk; non-trivial = a file is actually being rewritten when the fault hits" % nsets,
         "samples": show[:3] + show[-1:],
         "correspondence_disagreements": len(disagreements),
         "traces_validated_against_impl": len(cases),
